@@ -168,5 +168,23 @@ def oracle(ctx):
         if a != want:
             res.oracle_failures.append(dict(op=op, input=dict(string=s, spelling=sp), impl_output=core.dec_line(a),
                                             oracle_expectation=f'Image={sp} is looked up as {s!r}'))
+    # every one-byte escape \001..\377 and \x01..\xff is a valid escape: it denotes *something* (the character below 0x80; the
+    # byte — systemd — or the code point — this implementation — from 0x80 on, an ambiguity outside the statement, cf.
+    # KF-C05-1), so the value must read back as a non-empty string, alone and inside either kind of quotes
+    byte_ops, metas = [], []
+    for o in range(1, 256):
+        for form in ('\\%03o' % o, '\\x%02x' % o):
+            for sp in (form, '"' + form + '"', "'" + form + "'", 'a' + form + 'b'):
+                byte_ops.append('unquote\t' + hx(sp))
+                metas.append((o, sp))
+    for (o, sp), op, a in zip(metas, byte_ops, ctx.impl(byte_ops)):
+        res.oracle_evals += 1
+        want_exact = None
+        if o < 0x80:
+            want_exact = ('a' + chr(o) + 'b') if sp.startswith('a') else chr(o)
+        ok = a.startswith('ok x') and (unhx(a[3:]) == want_exact if want_exact is not None else len(unhx(a[3:])) >= (3 if sp.startswith('a') else 1))
+        if not ok:
+            res.oracle_failures.append(dict(op=op, input=dict(spelling=sp), impl_output=core.dec_line(a),
+                                            oracle_expectation=f'the escape in {sp!r} is valid and denotes ' + (repr(want_exact) if want_exact is not None else 'one character (or byte)')))
     res.samples.append(dict(kind='oracle-case', string=pairs[len(pairs) // 2][0], spelling=pairs[len(pairs) // 2][1]))
     ctx.log(f'oracle: {res.oracle_evals} evaluations, {len(res.oracle_failures)} failures')
